@@ -1370,8 +1370,15 @@ def same_value(got, v):
 
 
 def same_bits(a, b):
+    """Unchanged value: bit-identical, or - when only the dtype differs (a switch
+    whose branches share an address with different dtypes promotes the value when
+    its index is an array) - numerically identical."""
     a, b = np.asarray(a), np.asarray(b)
-    return a.shape == b.shape and a.dtype == b.dtype and a.tobytes() == b.tobytes()
+    if a.shape != b.shape:
+        return False
+    if a.dtype == b.dtype:
+        return a.tobytes() == b.tobytes()
+    return bool(np.array_equal(a.astype(np.float64), b.astype(np.float64)))
 
 
 def same_x(a, b, bits=False):
